@@ -1918,6 +1918,33 @@ mod tests {
     }
 }
 
+#[cfg(feature = "verif-hooks")]
+impl Linearizer {
+    /// verification hook (read-only): the variable ranges the compiled model publishes and the
+    /// ranges the lowering consults for the given expressions, taken from a real linearizer
+    /// context built for the model
+    pub fn verif_lowering_ranges(
+        model: &crate::parser::model_transformer::Model,
+        exps: &[Exp],
+    ) -> (Vec<(String, VariableType)>, Vec<(f64, f64)>) {
+        let (_, constraints, domain) = model.clone().into_components();
+        let context = Linearizer::new_from(constraints, domain);
+        let published = context
+            .domain
+            .iter()
+            .map(|(name, variable)| (name.clone(), *variable.get_type()))
+            .collect();
+        let ranges = exps
+            .iter()
+            .map(|e| {
+                let b = context.bounds.bounds_of(e);
+                (b.lower, b.upper)
+            })
+            .collect();
+        (published, ranges)
+    }
+}
+
 #[cfg(all(kani, feature = "verif-hooks"))]
 mod verif_kani {
     #[allow(unused_imports)]
